@@ -18,8 +18,9 @@ import (
 
 func c04World(c *runner.Ctx) (*gen.World, string, error) {
 	r := c.R
+	forced := c.Idx % 100
 	switch {
-	case c.Idx == 0: // empty batch and things merged from it
+	case forced == 0: // empty batch and things merged from it
 		w := &gen.World{}
 		e, err := gen.BuildSeg(nil, 1025)
 		if err != nil {
@@ -37,7 +38,7 @@ func c04World(c *runner.Ctx) (*gen.World, string, error) {
 		}
 		w.Segs = append(w.Segs, m)
 		return w, "empty-batch", nil
-	case c.Idx == 1 || c.Idx == 2: // zero-survivor merges and trees over them
+	case forced == 1 || forced == 2: // zero-survivor merges and trees over them
 		w := &gen.World{Schema: gen.GenSchema(r)}
 		a, err := gen.BuildSeg(gen.GenBatch(r, w.Schema, 1+r.Intn(9), "a", gen.DocOpts{Repeat: true}), gen.Mode(r, 10))
 		if err != nil {
@@ -64,7 +65,7 @@ func c04World(c *runner.Ctx) (*gen.World, string, error) {
 		}
 		w.Segs = append(w.Segs, z3)
 		return w, "zero-survivors", nil
-	case c.Idx == 3 || (c.Tier == "thorough" && c.Idx < 12):
+	case forced == 3:
 		w, err := gen.GenWorld(r, c.TmpDir, fmt.Sprintf("w%d", c.Idx), gen.WorldOpts{Jumbo: true})
 		return w, "jumbo", err
 	}
@@ -162,7 +163,7 @@ func init() {
 		Rule: "cases = worlds of segments (built in every chunk mode, memory-/file-loaded, merged with all deletion patterns, merges of merges; forced: empty batch, zero-survivor merges and merge trees over them, a jumbo world); each segment is one evaluation: WriteTo -> Load from an exact-length memory image and file-backed -> observation (all read APIs + statistics) must equal the original's, then the loaded forms are persisted and loaded again; " +
 			"non-trivial = segment with >=1 document and >=2 fields (distinct by observation text and chunk mode) or a degenerate shape (empty batch / zero-document merge, counted separately)",
 		Assumptions: InputContract,
-		Phases:      []runner.Phase{{Name: "roundtrip", Cases: cases(150, 4000), Run: c04Run}},
+		Phases:      []runner.Phase{{Name: "roundtrip", Cases: cases(800, 20000), Run: c04Run}},
 		Floors: func(string) map[string]int64 {
 			return map[string]int64{"degenerate.empty_batch": 1, "degenerate.zero_doc_merged": 2, "roundtrips.file": 300, "roundtrips.memory": 300, "segments.merged": 100}
 		},
